@@ -303,6 +303,12 @@ class Extractor:
             elif isinstance(n, ast.AugAssign) and isinstance(n.target, ast.Attribute):
                 for x in names_in(n.value):
                     fields.setdefault(x, set()).add(n.target.attr)
+            elif isinstance(n, ast.AugAssign) and isinstance(n.target, ast.Name):
+                for x in names_in(n.value):
+                    flows.setdefault(x, set()).add(n.target.id)
+            elif isinstance(n, (ast.Return, ast.Yield, ast.YieldFrom)) and n.value is not None:
+                for x in names_in(n.value):
+                    fields.setdefault(x, set()).add("<return>")
             elif isinstance(n, ast.Call) and isinstance(n.func, ast.Attribute) and n.func.attr in ("append", "extend", "insert", "add") and n.args:
                 recv = n.func.value
                 if isinstance(recv, ast.Attribute):
@@ -525,6 +531,8 @@ class Extractor:
             if n is not None:
                 bound.append((pname, n))
                 continue
+            if any(isinstance(x, ast.BinOp) for x in ast.walk(arg)):
+                continue  # counters (depth + 1) would make every recursion level a new constant environment
             v = self.fold(fi, arg, st)
             if v is not UNKNOWN:
                 try:
@@ -802,6 +810,10 @@ class Extractor:
                     st.chain = base_chain + [("guard", v, pr, False)]
                     e, et = self.seq(fi, s.orelse, st)
                     st.chain = base_chain
+                    if self.mark_tags and pr.kind == "in" and any(t in self.mark_tags for t in pr.arg) and v == st.cur and not getattr(st, "marked", False) and st.cur in st.loopspec \
+                            and not any(isinstance(a, Yield) for a in b) and not fi.is_generator() and not self.returns_nodes(fi):
+                        # the loop variable is selected by tag inside the loop body (for child in row: if child.tag in (td, th): ...)
+                        b = [Guard(v, Pred("in", frozenset([t])), [Mark(v, mn)], []) for t, mn in self.mark_tags.items() if t in pr.arg] + b
                     if not bt and not et:
                         acts += self.wrap(fi, st, v, [Guard(v, pr, b, e)])
                         continue
@@ -961,6 +973,11 @@ class Extractor:
                     if self.list_add(fi, v.func.value.id, v.func.attr, v.args[0], st):
                         continue
                 va = self.expr(fi, v, st)
+                if isinstance(v, ast.Call) and not (isinstance(v.func, ast.Attribute) and v.func.attr in ("append", "extend", "insert", "add")):
+                    tg = resolve_call(self.p, fi, v)
+                    if tg.funcs and all(self._returns_value(g) for g in tg.funcs):
+                        # a value-returning helper called for its side effects only: what it read for its result goes nowhere
+                        self._tag_dest(va, sinks=frozenset(["<discarded>"]))
                 if isinstance(v, ast.Call) and isinstance(v.func, ast.Attribute) and v.func.attr in ("append", "extend", "insert", "add"):
                     recv = v.func.value
                     if isinstance(recv, ast.Attribute):
@@ -1074,6 +1091,12 @@ class Extractor:
         return True
 
     @staticmethod
+    def _returns_value(fi: FuncInfo) -> bool:
+        from .loader import walk_own
+        return any(isinstance(n, ast.Return) and n.value is not None and not (isinstance(n.value, ast.Constant) and n.value.value is None) for n in walk_own(fi.node)) \
+            and not any(isinstance(n, (ast.Yield, ast.YieldFrom)) for n in walk_own(fi.node))
+
+    @staticmethod
     def _returns_node_expr(fi: FuncInfo) -> bool:
         """`return [e for e in <node iteration> ...]` / `return node.findall(..)` style helpers."""
         from .loader import walk_own
@@ -1088,11 +1111,27 @@ class Extractor:
 
     @staticmethod
     def returns_nodes(fi: FuncInfo) -> bool:
-        """A helper that collects nodes into a local list and returns it (the caller iterates the result)."""
+        """A helper that collects nodes (its parameter, loop variables, results of itself) into a local list and returns it."""
         from .loader import walk_own
         lists = {n.targets[0].id for n in walk_own(fi.node) if isinstance(n, ast.Assign) and len(n.targets) == 1 and isinstance(n.targets[0], ast.Name) and isinstance(n.value, ast.List) and not n.value.elts}
-        rets = [n for n in walk_own(fi.node) if isinstance(n, ast.Return) and isinstance(n.value, ast.Name) and n.value.id in lists]
-        return bool(rets)
+        rets = {n.value.id for n in walk_own(fi.node) if isinstance(n, ast.Return) and isinstance(n.value, ast.Name) and n.value.id in lists}
+        if not rets:
+            return False
+        params = {a.arg for a in fi.node.args.args}
+        loopvars = set()
+        for n in walk_own(fi.node):
+            if isinstance(n, (ast.For, ast.comprehension)):
+                loopvars |= {x.id for x in ast.walk(n.target) if isinstance(x, ast.Name)}
+        for n in walk_own(fi.node):
+            if isinstance(n, ast.Call) and isinstance(n.func, ast.Attribute) and isinstance(n.func.value, ast.Name) and n.func.value.id in rets and n.args:
+                a = n.args[0]
+                if n.func.attr == "append" and isinstance(a, ast.Name) and (a.id in params or a.id in loopvars):
+                    return True
+                if n.func.attr == "extend" and isinstance(a, ast.Call) and isinstance(a.func, (ast.Attribute, ast.Name)):
+                    nm = a.func.attr if isinstance(a.func, ast.Attribute) else a.func.id
+                    if nm == fi.node.name or nm in ("findall", "iter", "iterfind"):
+                        return True
+        return False
 
     def _lists_chain(self, st):
         names = set()
